@@ -10,7 +10,7 @@ HUGE_BOUNDS = [(3, 2, 1, 1), (4, 1, 1, 1)]      # 2.0e6 states (~10 min) and 1.4
 # the same exploration with the bar heights passed as other numeric types (bounds, codec)
 QUICK_CODECS = [((2, 1, 1, 1), 'decimal-mm'), ((2, 2, 1, 1), 'float-cm'), ((2, 2, 1, 1), 'decimal-cm'), ((1, 3, 1, 1), 'float-cm'), ((2, 2, 1, 1), 'decimal-10m'), ((2, 1, 1, 1), 'decimal-1m'),
                 ((2, 1, 1, 1), 'int'), ((2, 2, 1, 1), 'bibs:int'), ((2, 1, 1, 1), 'bibs:default'), ((2, 1, 1, 1), 'bibs:blank'), ((1, 2, 1, 1), 'bibs:none'),
-                ((2, 1, 1, 1), 'bibs:order-text'), ((2, 2, 1, 1), 'float-mm'), ((3, 1, 1, 1), 'opt:verbose'), ((2, 2, 1, 1), 'opt:verbose')]
+                ((2, 1, 1, 1), 'bibs:order-text'), ((3, 1, 1, 1), 'bibs:zero-padded'), ((2, 2, 1, 1), 'float-mm'), ((3, 1, 1, 1), 'opt:verbose'), ((2, 2, 1, 1), 'opt:verbose')]
 THOROUGH_CODECS = [((2, 2, 2, 1), 'decimal-10m'), ((2, 2, 1, 1), 'decimal-1m'), ((2, 2, 1, 1), 'int'), ((2, 2, 2, 1), 'bibs:int'), ((3, 1, 1, 1), 'bibs:int'), ((2, 2, 1, 1), 'bibs:default'), ((3, 1, 1, 1), 'bibs:default'), ((2, 2, 1, 1), 'bibs:blank'), ((3, 1, 1, 1), 'bibs:blank'), ((1, 3, 1, 1), 'bibs:none'), ((2, 2, 2, 1), 'float-cm'), ((2, 2, 2, 1), 'decimal-cm'), ((2, 2, 1, 1), 'decimal-mm'), ((1, 4, 3, 2), 'float-cm'), ((3, 1, 1, 1), 'float-cm'),
                    ((2, 3, 1, 1), 'float-cm'), ((2, 2, 1, 1), 'bibs:order-text'), ((2, 2, 2, 1), 'float-mm'), ((3, 1, 1, 1), 'float-mm')]
 
